@@ -711,4 +711,26 @@ theorem Linear.reads_once (srcs : Nat → Src α) (cs : List (HC α)) (hl : Line
 
 end decide
 
+/-! ### a concrete depth-2 forest (non-vacuity of the lockstep theorems) -/
+/-- non-vacuity, depth 2 (`g * p * q`: hubs 1 and 2 sit over products of copies of hub 0) -/
+def nestUp : Nat → It Rat
+  | 0 => .src 0
+  | 1 => .br .mul (.tee 0 0 (.src 0)) 1
+  | _ => .br .mul (.tee 0 1 (.src 0)) 1
+def nestCs : List (HC Rat) :=
+  [.s (.br .mul (.tee 1 0 (nestUp 1)) 1),
+   .s (.map2 .add (.br .mul (.tee 1 1 (nestUp 1)) 2) (.br .mul (.tee 2 0 (nestUp 2)) 1)),
+   .s (.br .mul (.tee 2 1 (nestUp 2)) 2)]
+theorem nestLin : Lin nestUp (fun g => g < 3) where
+  wf := by
+    intro g hg
+    have : g = 0 ∨ g = 1 ∨ g = 2 := by omega
+    rcases this with rfl | rfl | rfl <;> simp [nestUp, It.WF, It.Cons, It.groups, It.expo]
+  disj := by
+    intro g h hg hh hne τ
+    have e1 : g = 0 ∨ g = 1 ∨ g = 2 := by omega
+    have e2 : h = 0 ∨ h = 1 ∨ h = 2 := by omega
+    rcases e1 with rfl | rfl | rfl <;> rcases e2 with rfl | rfl | rfl <;>
+      simp [nestUp, It.expo] at hne ⊢ <;> intro e <;> simp [e]
+
 end ALV.C06.Hub
